@@ -11,6 +11,9 @@ def register(prop, J):
          jobs=[
              J("race-v2", "v2", "resprops", "^TestC17", checks=(600, 90000), shards=(4, 16), prepare="prepare_resources",
                extra_pkgs=["dyn", "gendrv"], timeout=(1500, 3000), race=True, crash_is_violation=True),
+             # (appended after the v2 job: the position of a job determines its derived seeds)
+             J("race-v1", "v1", "resprops", "^TestC17", checks=(400, 45000), shards=(4, 16), prepare="prepare_resources",
+               extra_pkgs=["dyn", "gendrv"], timeout=(1500, 3000), race=True, crash_is_violation=True),
          ],
          level_text="randomised concurrent executions under happens-before race detection, plus a serial differential: every "
                     "concurrent call must observe exactly the outcome the C02 / C08 oracles prescribe for it alone (no leakage of "
